@@ -96,9 +96,9 @@ class Tree:
         return 1 + max([it[2].depth() for it in self.items if isinstance(it, tuple)] or [0])
 
 
-def build_tree(r, decls, relpath, depth, counter):
+def build_tree(r, decls, relpath, depth, counter, same_names=False):
     t = Tree(relpath)
-    if depth >= 3 or len(decls) < 2 or (depth > 0 and r.random() < 0.4):
+    if depth >= 3 or len(decls) < 2 or (depth > 0 and r.random() < (0.15 if same_names else 0.4)):
         t.items = list(decls)
         return t
     idx = closed_subset(r, decls, 0.4)
@@ -108,7 +108,7 @@ def build_tree(r, decls, relpath, depth, counter):
     first = min(idx)
     moved = [decls[i] for i in sorted(idx)]
     counter[0] += 1
-    c = r.random()
+    c = 1.0 if same_names else r.random()
     if c < 0.45:
         segs = ["m%d" % counter[0]]
     elif c < 0.8:
@@ -118,7 +118,7 @@ def build_tree(r, decls, relpath, depth, counter):
         segs = ["d%d" % counter[0], "types"]
     base = os.path.dirname(relpath)
     child_rel = os.path.join(base, *segs[:-1], segs[-1] + ".fcp")
-    child = build_tree(r, moved, child_rel, depth + 1, counter)
+    child = build_tree(r, moved, child_rel, depth + 1, counter, same_names)
     for i, d in enumerate(decls):
         if i == first:
             t.items.append(("mod", segs, child))
